@@ -502,13 +502,23 @@ func (ctx *crashCtx) cfgAtPos(k int) Config {
 // checkImage evaluates one crash image (and, for C07, the second-level images of its recovery).
 func (ctx *crashCtx) checkImage(k int, cut map[int]int, power bool, pos2 int) {
 	r := ctx.r
+	otherCfg := false
 	tree := vos.Replay(nil, ctx.journal, k, cut)
 	lo, hi := ctx.allowed(k, cut, power)
 	cfg := ctx.cfgAtPos(k)
+	if r.C.Prop != "C07" && (r.C.Crash == nil && ctx.images%5 == 3 || r.C.Crash != nil && r.C.Crash.OtherCfg) {
+		// the crashed directory is reopened under another reader configuration (the other I/O back-end, another
+		// index type and shard count): what C02 promises for a cleanly closed directory is no less needed after a crash
+		cfg.IO ^= 1
+		cfg.Index = cfg.Index%3 + 1
+		cfg.Shards = []int{1, 3, 16}[k%3]
+		otherCfg = true
+		r.inc("fault_recovery_under_other_config")
+	}
 	r.judging = true
 	r.step = k
 	pin := func(p2 int) {
-		r.C.Crash = &Crash{Pos: k, Cut: cut, Power: power, Pos2: p2 + 1, ClockBack: ctx.clockBack > 0 || (r.C.Crash != nil && r.C.Crash.ClockBack)}
+		r.C.Crash = &Crash{Pos: k, Cut: cut, Power: power, Pos2: p2 + 1, ClockBack: ctx.clockBack > 0 || (r.C.Crash != nil && r.C.Crash.ClockBack), OtherCfg: otherCfg}
 	}
 	kind := "process"
 	if power {
